@@ -244,10 +244,14 @@ func ParseChoices(s string) []int {
 	return out
 }
 
+// memoCap bounds the state-signature table of one exploration (about 150 bytes per state).
+const memoCap = 6_000_000
+
 func (e *Explorer) runBound(bound int) Stats {
 	c := e.C
 	st := Stats{Outcomes: map[string]int64{}}
 	memo := map[uint64]map[uint64]int{}
+	memoFull := false
 	splitCounter := int64(0)
 	stop := false
 	stuck := 0
@@ -331,12 +335,22 @@ func (e *Explorer) runBound(bound int) Stats {
 				}
 				if m == nil {
 					st.States++
+					if len(memo) >= memoCap {
+						// the table is full: the state is explored without being remembered
+						// (sound, only slower); said once per scenario in the evidence notes
+						if !memoFull {
+							memoFull = true
+							c.Note("%s bound %d: memo table full at %d states; later states are explored without memoisation", e.Scenario, bound, memoCap)
+						}
+						goto expand
+					}
 					m = map[uint64]int{}
 					memo[p.Key] = m
 				}
 				if old, ok := m[p.Cur]; !ok || old < rem {
 					m[p.Cur] = rem
 				}
+			expand:
 			}
 			if i >= len(prefix) {
 				for alt := 1; alt < n; alt++ {
